@@ -39,6 +39,7 @@ CHECKS = {
             dict(pkg="gate", run="^TestC09Timeouts$",
                  quick=dict(shards=1, checks=1, timeout=240),
                  thorough=dict(shards=4, checks=1, timeout=1500)),
+            dict(pkg="gate", run="^FuzzC09$", kind="fuzz", seconds=60),
         ],
         rule="pre-drawn scenarios on the public open_game_manager API: 1..4 set-ups of 1..10 participants with fresh game counts, ready signals in every order/subset with repetitions and unknown ids, re-set-up with signals still pending or unprocessed, rebuild from GetState(), and (timeout leg, executed side by side) real 1-2 s timeout expiry; oracle = firing log obligations (at most once per set-up, not before the last missing signal unless the timeout elapsed, reported game count/participants/all ready, superseded set-up silent, unknown rejected without state change); non-trivial = >=2 participants and (duplicate | unknown | superseding set-up with pending signals | timeout firing | rebuild); distinct = distinct op sequences",
         mandatory=dict(quick=["dup", "unknown", "supersede_pending", "timeout_fire", "rebuild", "all_ready_fire", "parts_1", "parts_10"]),
@@ -118,7 +119,7 @@ CHECKS = {
                     quick=dict(shards=4, checks=150, timeout=300),
                     thorough=dict(shards=16, checks=2500, timeout=1800))],
         rule='cases = generated histories with a drawn blind schedule: UpdateBlind between hands (before the open trigger), at in-hand decision points, breaks (-1) between hands and during hands, resume from a break, tables created on a break; oracle: options handed to the backend, hand meta and published game blind level = values in force when the harness released the open trigger; ante/blinds actually charged = min(amount, stack) per position; mid-hand updates change only later hands; no open and no button movement on a break; pause after a hand whose level became a break; non-trivial = a blind update or a break; distinct = distinct abstract traces',
-        mandatory=dict(quick=['update_inhand', 'update_between', 'break_after_hand', 'break_no_open', 'resume_from_break', 'created_on_break', 'ante_checked', 'blinds_checked']),
+        mandatory=dict(quick=['update_inhand', 'update_between', 'update_same_level_number', 'break_after_hand', 'break_no_open', 'resume_from_break', 'created_on_break', 'ante_checked', 'blinds_checked']),
         assumptions=ASSUME_COMMON,
     ),
     "C13": dict(
@@ -214,8 +215,8 @@ CHECKS = {
         parts=[dict(pkg="actor", run="^TestC20$",
                     quick=dict(shards=4, checks=100, timeout=300),
                     thorough=dict(shards=16, checks=2500, timeout=1800))],
-        rule="every table-state notification of generated hands (all statuses and hand phases, showdown and fold-out endings, and hands that keep running after an external PauseTable / CloseTable) is handed - inside the engine's callback, as the engine's live table - to 1..5 actors attached in a drawn order (non-system observer, system observer, a scribbling system observer, a player runner) through the real TableEngineAdapter; oracle: the non-system observer is never shown deck, burned cards, hole cards or hand strength while the hand is in play, nor those of folded players after it closed; the engine's table is unchanged by the fan-out; no actor shares structure with the engine or another actor; what one actor changes is invisible to the others; the system observer gets the unmasked copy; non-trivial = a snapshot with dealt hole cards or a closed hand with folded and shown players; distinct = distinct generated histories",
-        mandatory=dict(quick=["playing_with_cards", "closed_showdown_with_fold", "closed_foldout", "paused_during_hand", "actors_1", "actors_5"]),
+        rule="every table notification (OnTableUpdated and OnTableStateUpdated) of generated hands, including the re-publications caused by table-level operations during a hand (reserve / join / re-buy / add-on / deadline extension), (all statuses and hand phases, showdown and fold-out endings, and hands that keep running after an external PauseTable / CloseTable) is handed - inside the engine's callback, as the engine's live table - to 1..5 actors attached in a drawn order (non-system observer, system observer, a scribbling system observer, a player runner) through the real TableEngineAdapter; oracle: the non-system observer is never shown deck, burned cards, hole cards or hand strength while the hand is in play, nor those of folded players after it closed; the engine's table is unchanged by the fan-out; no actor shares structure with the engine or another actor; what one actor changes is invisible to the others; the system observer gets the unmasked copy; non-trivial = a snapshot with dealt hole cards or a closed hand with folded and shown players; distinct = distinct generated histories",
+        mandatory=dict(quick=["playing_with_cards", "closed_showdown_with_fold", "closed_foldout", "paused_during_hand", "table_level_op_during_hand", "actors_1", "actors_5"]),
         assumptions=["only snapshots the engine emits are presented"],
     ),
     "C04": dict(
@@ -229,6 +230,7 @@ CHECKS = {
             dict(pkg="seat", run="^TestC04Pinned$",
                  quick=dict(shards=1, checks=1, timeout=60),
                  thorough=dict(shards=1, checks=1, timeout=60)),
+            dict(pkg="seat", run="^FuzzC04$", kind="fuzz", seconds=90),
         ],
         exhaustive_checks=["c04x"],
         exhaustive_scope="breadth-first enumeration of every reachable observable seat-manager state for seat counts 2..4 (quick) / 2..5 (thorough), both rules, deterministic operations (assign/join/bust/re-buy/leave/init/rotate); every transition checked; seat counts 6..10 and random seat/button choices are sampled by the rapid part",
